@@ -124,7 +124,8 @@ def run_filter(ws: Path, c):
         except Exception as e:  # noqa
             return dict(v=None, exc=type(e).__name__)
 
-    return dict(whole=one(c["text"]), atoms=[one(t) for t in c["atom_texts"]])
+    st = JobInformation(d.resolve(), scriptname(c["job"]["task"])).state
+    return dict(state=None if st is None else st.name, whole=one(c["text"]), atoms=[one(t) for t in c["atom_texts"]])
 
 
 def atom_verdicts(ws: Path, c):
